@@ -327,3 +327,61 @@ def uncompact_ops(tier, rng):
     for n in malformed_ids(tier, rng)[:40]:
         ops.append(f'uncompact {rng.randint(0, 5)} {n}')
     return ops
+
+# ------------------------------------------------------------------------------------------
+# Hilbert curve / lattice
+
+ORIENTS = ['uv', 'vu', 'uw', 'wu', 'vw', 'wv']
+
+def hilbert_s_values(n, tier, rng):
+    """indices for level n: exhaustive for small n, digit-pattern-directed and random above"""
+    top = 4 ** n
+    if n <= (5 if tier == 'quick' else 7):
+        return list(range(top))
+    vals = {0, 1, 2, 3, top - 1, top - 2, top // 2, top // 4, top // 3, (2 * top) // 3}
+    for d in range(4):
+        vals.add(int(str(d) * n, 4))
+    for pat in ('01', '12', '23', '30', '13', '02', '0123', '3210', '0333', '1000', '2111'):
+        vals.add(int((pat * n)[:n], 4))
+    for k in range(n):
+        for d in (1, 2, 3):
+            vals.add(d * 4 ** k)
+            vals.add(top - 1 - d * 4 ** k)
+    for _ in range(20 if tier == 'quick' else 400):
+        vals.add(rng.randrange(top))
+    return sorted(v for v in vals if 0 <= v < top)
+
+def hilbert_ops(tier, rng, centers=None):
+    import struct
+    def fb(x):
+        return struct.unpack('<Q', struct.pack('<d', float(x)))[0]
+    ops = []
+    for d in range(4):
+        for fx in (1, -1):
+            for fy in (1, -1):
+                ops.append(f'q2kj {d} {fx} {fy}')
+    for n in range(0, 29):
+        for o in ORIENTS:
+            svals = hilbert_s_values(n, tier, rng)
+            if n > 3 and tier == 'quick' and len(svals) > 300:
+                svals = rng.sample(svals, 300)
+            for s in svals:
+                ops.append(f's2a {s} {n} {o}')
+            ops.append(f's2a {4 ** n} {n} {o}')
+            ops.append(f's2a {4 ** n + 5} {n} {o}')
+    # inverse direction: lattice points with small offsets, random points, points supplied by the caller (cell centres)
+    pts = []
+    for n in range(1, 29):
+        m = 2 ** n
+        for _ in range(12 if tier == 'quick' else 200):
+            i = rng.randrange(0, m); j = rng.randrange(0, m - i) if m - i > 0 else 0
+            for (di, dj) in ((0.3, 0.3), (0.7, 0.1), (0.1, 0.7), (-0.2, 0.5), (0.5, -0.2), (1e-9, 1e-9), (0.5, 0.5 - 1e-12), (1 / 3, 1 / 3),
+                             (rng.random(), rng.random()), (rng.uniform(-1, 2), rng.uniform(-1, 2))):
+                pts.append((i + di, j + dj, n))
+        pts.append((0.0, 0.0, n)); pts.append((float(m), 0.0, n)); pts.append((0.0, float(m), n)); pts.append((-1.5, 2.5, n)); pts.append((m * 2.0, m * 3.0, n))
+    if centers:
+        pts += centers
+    for (x, y, n) in pts:
+        for o in (ORIENTS if (tier == 'thorough' or rng.random() < 0.34) else [rng.choice(ORIENTS)]):
+            ops.append(f'ij2s {fb(x)} {fb(y)} {n} {o}')
+    return ops
